@@ -86,4 +86,162 @@ Section Eval.
       + intros x Hx Hx'. apply newI_spec in Hx'. tauto.
     - intros x Hx. apply in_app_or in Hx. destruct Hx as [Hx|Hx]; auto. apply newI_spec in Hx. tauto.
   Qed.
+
+  (** a small list of maximal length contains every node *)
+  Lemma small_full T : small T -> n0 <= length T -> forall x, x < n0 -> In x T.
+  Proof.
+    intros [Hn Hs] Hl x Hx.
+    assert (Hincl : incl T dom) by (intros y Hy; apply in_seq; specialize (Hs y Hy); lia).
+    assert (Hlen : length dom <= length T) by (unfold dom; rewrite seq_length; exact Hl).
+    apply (NoDup_length_incl Hn Hlen Hincl). apply in_seq. lia.
+  Qed.
+
+  Lemma small_length T : small T -> length T <= n0.
+  Proof.
+    intros [Hn Hs].
+    assert (Hincl : incl T dom) by (intros y Hy; apply in_seq; specialize (Hs y Hy); lia).
+    pose proof (NoDup_incl_length Hn Hincl) as H. unfold dom in H. rewrite seq_length in H. exact H.
+  Qed.
+
+  (** after enough steps the inductive closure is stable *)
+  Lemma iterI_stable k : forall T, small T -> n0 <= length T + k -> stepI (iter stepI k T) = iter stepI k T.
+  Proof.
+    induction k as [|k IH]; intros T Hs Hk; simpl.
+    - rewrite stepI_eq. replace (newI T) with (@nil nat); [apply app_nil_r|].
+      symmetry. destruct (newI T) as [|x r] eqn:E; auto. exfalso.
+      assert (Hx : In x (newI T)) by (rewrite E; left; auto). apply newI_spec in Hx.
+      destruct Hx as [H1 [H2 _]]. apply H2. apply small_full; auto. lia.
+    - destruct (newI T) as [|x r] eqn:E.
+      + assert (Hfix : stepI T = T) by (rewrite stepI_eq, E; apply app_nil_r).
+        rewrite Hfix. rewrite iter_fixed; auto.
+      + apply IH; [apply small_step; auto|]. rewrite stepI_eq, E, app_length. simpl. lia.
+  Qed.
+
+  Lemma lfpI_stable C : small C -> stepI (lfpI C) = lfpI C.
+  Proof. intros Hs. unfold AndOr.lfpI. apply iterI_stable; auto. fold n0. lia. Qed.
+
+  Lemma iter_incl k : forall T x, In x T -> In x (iter stepI k T).
+  Proof.
+    induction k as [|k IH]; intros T x Hx; simpl; auto. apply IH. rewrite stepI_eq. apply in_or_app. left; auto.
+  Qed.
+
+  (** soundness and completeness of the inductive closure *)
+  Lemma iterI_sound C : allco C -> forall k T, (forall x, In x T -> holdsI (fun y => In y C) x) ->
+    forall x, In x (iter stepI k T) -> holdsI (fun y => In y C) x.
+  Proof.
+    intros Hco k. induction k as [|k IH]; intros T HT x Hx; simpl in Hx; auto.
+    apply (IH (stepI T)); auto. intros y Hy. rewrite stepI_eq in Hy. apply in_app_or in Hy.
+    destruct Hy as [Hy|Hy]; auto. apply newI_spec in Hy. destruct Hy as [_ [_ [Hc Hok]]].
+    apply node_ok_spec in Hok. destruct Hok as [c [Hin [Hus Hsub]]]. eapply HI_in; eauto.
+  Qed.
+
+  Lemma lfpI_sound C : allco C -> forall x, In x (lfpI C) -> holdsI (fun y => In y C) x.
+  Proof.
+    intros Hco. apply (iterI_sound C Hco). intros x Hx. apply HI_co; auto.
+  Qed.
+
+  Lemma lfpI_complete C : small C -> forall x, holdsI (fun y => In y C) x -> In x (lfpI C).
+  Proof.
+    intros Hs x H. induction H as [x Hco HC | x c Hco Hin Hus Hsub IH].
+    - apply iter_incl. exact HC.
+    - destruct (in_dec Nat.eq_dec x (lfpI C)) as [Hi|Hn]; auto. exfalso.
+      assert (Hlt : x < n0) by (eapply holdsI_lt; eapply HI_in; eauto).
+      assert (Hnew : In x (newI (lfpI C))).
+      { apply newI_spec. repeat split; auto. apply node_ok_spec. exists c. auto. }
+      pose proof (lfpI_stable C Hs) as Hst. rewrite stepI_eq in Hst.
+      assert (E : newI (lfpI C) = []).
+      { destruct (newI (lfpI C)) as [|y r]; auto. exfalso.
+        assert (Hl : length (lfpI C ++ y :: r) = length (lfpI C)) by (rewrite Hst; reflexivity).
+        rewrite app_length in Hl. simpl in Hl. lia. }
+      rewrite E in Hnew. destruct Hnew.
+  Qed.
+
+  (** ** the greatest consistent set *)
+  Lemma stepC_spec C x : In x (stepC C) <-> In x C /\ node_ok (lfpI C) x = true.
+  Proof. unfold AndOr.stepC. rewrite filter_In. tauto. Qed.
+
+  Lemma small_stepC C : small C -> small (stepC C).
+  Proof.
+    intros [Hn Hs]. split; [apply NoDup_filter; auto|]. intros x Hx. apply stepC_spec in Hx. apply Hs. tauto.
+  Qed.
+
+  Lemma allco_stepC C : allco C -> allco (stepC C).
+  Proof. intros H x Hx. apply stepC_spec in Hx. apply H. tauto. Qed.
+
+  Lemma filter_len_le {A} (f : A -> bool) (l : list A) : length (filter f l) <= length l.
+  Proof. induction l as [|a l IH]; simpl; auto. destruct (f a); simpl; lia. Qed.
+
+  Lemma filter_length_lt {A} (f : A -> bool) (l : list A) : filter f l <> l -> length (filter f l) < length l.
+  Proof.
+    induction l as [|a l IH]; simpl; intros H; [congruence|].
+    destruct (f a).
+    - simpl. apply -> Nat.succ_lt_mono. apply IH. intros E. apply H. rewrite E. reflexivity.
+    - pose proof (filter_len_le f l). lia.
+  Qed.
+
+  Lemma iterC_stable k : forall C, length C <= k -> stepC (iter stepC k C) = iter stepC k C.
+  Proof.
+    induction k as [|k IH]; intros C Hk; simpl.
+    - destruct C; [reflexivity|simpl in Hk; lia].
+    - destruct (list_eq_dec Nat.eq_dec (stepC C) C) as [E|N].
+      + rewrite E. rewrite iter_fixed; auto.
+      + apply IH. pose proof (filter_length_lt (fun n => node_ok (lfpI C) n) C N). unfold AndOr.stepC. lia.
+  Qed.
+
+  Lemma iterC_props k : forall C, small C -> allco C -> small (iter stepC k C) /\ allco (iter stepC k C).
+  Proof.
+    induction k as [|k IH]; intros C Hs Hc; simpl; auto. apply IH; [apply small_stepC|apply allco_stepC]; auto.
+  Qed.
+
+  Lemma conodes_props : small (conodes G) /\ allco (conodes G).
+  Proof.
+    unfold conodes. split; [split|].
+    - apply NoDup_filter. apply seq_NoDup.
+    - intros x Hx. apply filter_In in Hx. destruct Hx as [Hx _]. apply in_seq in Hx. fold n0 in Hx. lia.
+    - intros x Hx. apply filter_In in Hx. tauto.
+  Qed.
+
+  Lemma gfpC_props : small (gfpC G opt) /\ allco (gfpC G opt) /\ stepC (gfpC G opt) = gfpC G opt.
+  Proof.
+    destruct conodes_props as [Hs Hc]. unfold gfpC.
+    destruct (iterC_props (length G) (conodes G) Hs Hc) as [A B]. repeat split; try apply A; auto.
+    apply iterC_stable. apply (small_length _ Hs).
+  Qed.
+
+  (** every node of the greatest consistent set survives every step *)
+  Lemma Cmax_in_iter k : forall C, small C -> (forall x, Cmax G opt x -> In x C) ->
+    forall x, Cmax G opt x -> In x (iter stepC k C).
+  Proof.
+    induction k as [|k IH]; intros C Hs HC x Hx; simpl; auto.
+    apply IH; auto; [apply small_stepC; auto|]. intros y Hy. apply stepC_spec. split; auto.
+    destruct (consistent_Cmax G opt y Hy) as [_ [c [Hin [Hus Hsub]]]].
+    apply node_ok_spec. exists c. repeat split; auto. intros m Hm.
+    apply lfpI_complete; auto. eapply holdsI_mono; [|apply Hsub; auto]. auto.
+  Qed.
+
+  Theorem holdsb_correct n : holdsb G opt n = true <-> holds n.
+  Proof.
+    destruct gfpC_props as [Hs [Hc Hst]]. unfold holdsb, true_set. rewrite memb_In. split.
+    - intros H. exists (fun y => In y (gfpC G opt)). split.
+      + intros x Hx. split; [apply Hc; auto|].
+        rewrite <- Hst in Hx. apply stepC_spec in Hx. destruct Hx as [_ Hok].
+        apply node_ok_spec in Hok. destruct Hok as [c [Hin [Hus Hsub]]].
+        exists c. repeat split; auto. intros m Hm. apply lfpI_sound; auto.
+      + apply lfpI_sound; auto.
+    - intros H. apply holds_Cmax in H. apply lfpI_complete; auto.
+      eapply holdsI_mono; [|exact H]. intros x Hx. unfold gfpC.
+      destruct conodes_props as [Hs0 _]. apply Cmax_in_iter; auto.
+      intros y [Hy _]. unfold conodes. apply filter_In. split; auto. apply in_seq.
+      destruct (lt_dec y (length G)); [lia|]. rewrite get_out in Hy by (fold n0; lia). discriminate.
+  Qed.
 End Eval.
+
+(** [eval] computes the declarative value *)
+Theorem eval_correct G n : sem G n (eval G n).
+Proof.
+  unfold eval. destruct (holdsb G false n) eqn:Ep.
+  - simpl. apply holdsb_correct; auto.
+  - destruct (holdsb G true n) eqn:Eo; simpl.
+    + split; [apply holdsb_correct; auto|]. intros H. apply holdsb_correct in H. congruence.
+    + intros H. apply holdsb_correct in H. congruence.
+Qed.
